@@ -5,6 +5,7 @@ use crate::calls::*;
 use crate::crc::crc8;
 use crate::engine::*;
 use crate::gen;
+use crate::refmodel::{self, RefEnc};
 use crate::sut::Enc;
 use proptest::prelude::*;
 
@@ -37,13 +38,18 @@ impl Prop for C03 {
     }
     fn run(&self, case: &EncCase) -> CaseResult {
         let mut r = CaseResult::default();
+        // labels come from the reference model so that generator health does
+        // not depend on the behaviour of the code under test
+        if let RefEnc::Packet(p) = refmodel::ref_encode(&case.call, case.env.eid_resp) {
+            let extra = if p.exact { 0 } else { 3 };
+            r.label(len_bucket(p.body.len() + 10 + extra));
+        }
         let (e, buf) = encode_in(&case.env, &case.call, BIG, |_| 0x5A);
         let Enc::Ok(len) = e else { return r };
         if len < 2 || len > buf.len() {
             return r;
         }
         r.nontrivial = true;
-        r.label(len_bucket(len));
         let want = crc8(&buf[..len - 1]);
         if buf[len - 1] != want || crc8(&buf[..len]) != 0 {
             r.fail(
